@@ -97,6 +97,7 @@ type funcContract struct {
 	ats        []*atClause
 	fresh      bool // result slice is freshly allocated by the callee
 	freshExprs []*clause // post-state expressions (slices) that the callee allocated
+	reallocs   []*clause // slices whose backing array after the call is the old one or a freshly allocated one
 	nofail     bool
 	dispatch   map[string]string // interface type name -> concrete receiver type text (devirtualisation, justified by a requires clause)
 }
@@ -263,6 +264,14 @@ func (db *specDB) loadSpecFile(path string, pkgName string, isGo bool) error {
 					}
 					cur.freshExprs = append(cur.freshExprs, cl)
 				}
+			}
+		case "realloc":
+			for _, part := range splitTopLevel(rest, ',') {
+				cl, err := mkClause(strings.TrimSpace(part))
+				if err != nil {
+					return err
+				}
+				cur.reallocs = append(cur.reallocs, cl)
 			}
 		case "dispatch":
 			f := strings.Fields(rest)
